@@ -82,6 +82,7 @@ type Engine struct {
 	funcTermBase int
 	subNames   map[string]string // sanitised sub-object function name -> heap key of its field
 	instHints  []*Term
+	finals     map[string]bool
 	localArrays []*Term // backing arrays of array-typed local variables of the function under verification
 }
 
